@@ -118,6 +118,9 @@ func (b *BoundedIterator) Seek(target []byte) bool {
 
 	// If target is at or after end bound, the seek will fail
 	if b.end != nil && bytes.Compare(target, b.end) >= 0 {
+		// Move past the range so that Valid() agrees with the result instead of
+		// staying on the previous position
+		b.Iterator.Seek(b.end)
 		return false
 	}
 
